@@ -388,7 +388,7 @@ func c15verdict(c *mon.Ctx, handler, name string, want, got bool, guards string,
 func c15SendJoin(c *mon.Ctx, r *gen.Rand, sc *simScenario, b *simBranch) {
 	s := sc.s
 	local := serverIdentity(c15local)
-	names := []string{"membership-join", "state-key-is-sender", "room-matches", "event-id-matches", "sender-of-requesting-server", "origin-signature-valid", "not-banned", "authoriser-local"}
+	names := []string{"membership-join", "state-key-is-sender", "room-matches", "event-id-matches", "sender-of-requesting-server", "origin-signature-valid", "not-banned", "authoriser-local", "type-is-m.room.member"}
 	user := "@joiner:other.example"
 	for _, vec := range guardVectors(r, len(names), 6) {
 		membership := "join"
@@ -413,7 +413,12 @@ func c15SendJoin(c *mon.Ctx, r *gen.Rand, sc *simScenario, b *simBranch) {
 		} else if !vec[7] {
 			continue
 		}
-		eb := s.impl.NewEventBuilderFromProtoEvent(&gmsl.ProtoEvent{SenderID: user, RoomID: s.roomID, Type: "m.room.member", StateKey: strp(sk), PrevEvents: []string{b.tip}, Depth: b.depth + 1,
+		evType := "m.room.member"
+		if !vec[8] {
+			// not a membership event at all, however much its content and state key look like a join
+			evType = gen.Pick(r, []string{"m.room.topic", "m.room.power_levels", "com.example.custom", "m.room.join_rules"})
+		}
+		eb := s.impl.NewEventBuilderFromProtoEvent(&gmsl.ProtoEvent{SenderID: user, RoomID: s.roomID, Type: evType, StateKey: strp(sk), PrevEvents: []string{b.tip}, Depth: b.depth + 1,
 			Content: gen.Plain().Bytes(content)})
 		if err := eb.AddAuthEvents(s.provider(b)); err != nil {
 			continue
@@ -472,7 +477,7 @@ func c15SendJoin(c *mon.Ctx, r *gen.Rand, sc *simScenario, b *simBranch) {
 
 func c15Invite(c *mon.Ctx, r *gen.Rand, sc *simScenario, b *simBranch) {
 	s := sc.s
-	names := []string{"room-matches", "origin-signature-valid", "not-already-joined-in-known-room"}
+	names := []string{"room-matches", "origin-signature-valid", "not-already-joined-in-known-room", "is-an-invite-of-the-invited-user"}
 	invitee := "@invitee:third.example"
 	inviteeID := serverIdentity("third.example")
 	inviter := ""
@@ -485,8 +490,24 @@ func c15Invite(c *mon.Ctx, r *gen.Rand, sc *simScenario, b *simBranch) {
 		return
 	}
 	for _, vec := range guardVectors(r, len(names), 2) {
-		eb := s.impl.NewEventBuilderFromProtoEvent(&gmsl.ProtoEvent{SenderID: inviter, RoomID: s.roomID, Type: "m.room.member", StateKey: strp(invitee), PrevEvents: []string{b.tip}, Depth: b.depth + 1,
-			Content: []byte(`{"membership":"invite"}`)})
+		proto := gmsl.ProtoEvent{SenderID: inviter, RoomID: s.roomID, Type: "m.room.member", StateKey: strp(invitee), PrevEvents: []string{b.tip}, Depth: b.depth + 1,
+			Content: []byte(`{"membership":"invite"}`)}
+		if !vec[3] {
+			// something else the inviting server would like the invited server's signature on
+			switch r.Intn(5) {
+			case 0:
+				proto.Type, proto.StateKey, proto.Content = "m.room.message", nil, []byte(`{"body":"I, third.example, agree","membership":"invite"}`)
+			case 1:
+				proto.Type, proto.StateKey = "m.room.power_levels", strp("")
+			case 2:
+				proto.Content = []byte(`{"membership":"ban"}`)
+			case 3:
+				proto.Content = []byte(`{"membership":"join"}`)
+			default:
+				proto.StateKey = strp("@somebodyelse:third.example")
+			}
+		}
+		eb := s.impl.NewEventBuilderFromProtoEvent(&proto)
 		if err := eb.AddAuthEvents(s.provider(b)); err != nil {
 			continue
 		}
@@ -550,7 +571,7 @@ func c15Invite(c *mon.Ctx, r *gen.Rand, sc *simScenario, b *simBranch) {
 func c15InviteV3(c *mon.Ctx, r *gen.Rand, sc *simScenario) {
 	ver := gmsl.RoomVersionPseudoIDs
 	t := ref.Traits(string(ver))
-	names := []string{"room-matches", "not-already-joined-in-known-room"}
+	names := []string{"room-matches", "not-already-joined-in-known-room", "template-is-an-invite"}
 	roomPriv := gen.NewIdentity(r, "unused.example", "ed25519:1")
 	inviteeKey := gen.NewIdentity(r, "unused.example", "ed25519:1")
 	inviterSender := spec.SenderIDFromPseudoIDKey(roomPriv.Priv)
@@ -559,6 +580,17 @@ func c15InviteV3(c *mon.Ctx, r *gen.Rand, sc *simScenario) {
 		room, _ := spec.NewRoomID("!pseudo:origin.example")
 		proto := gmsl.ProtoEvent{SenderID: string(inviterSender), RoomID: room.String(), Type: "m.room.member", StateKey: strp("to-be-replaced"), PrevEvents: []string{sc.s.create.EventID()},
 			AuthEvents: []string{sc.s.create.EventID()}, Depth: 7, Content: []byte(`{"membership":"invite","reason":"` + fmt.Sprint(r.Intn(1000)) + `"}`)}
+		if !vec[2] {
+			// a template the invited user's room key must not be put under
+			switch r.Intn(3) {
+			case 0:
+				proto.Type = "m.room.topic"
+			case 1:
+				proto.Content = []byte(`{"membership":"leave"}`)
+			default:
+				proto.Content = []byte(`{"membership":"join"}`)
+			}
+		}
 		roomID := *room
 		if !vec[0] {
 			o, _ := spec.NewRoomID("!another:origin.example")
